@@ -197,6 +197,8 @@ const (
 	ErrElseWithoutMatchingIf Error = "$else without matching $if"
 	// ErrEndifWithoutMatchingIf is the $endif without matching $if error.
 	ErrEndifWithoutMatchingIf Error = "$endif without matching $if"
+	// ErrIncludeCycle is the $include of a file that is already being included error.
+	ErrIncludeCycle Error = "$include cycle"
 	// ErrUnknownModifier is the unknown modifier error.
 	ErrUnknownModifier Error = "unknown modifier"
 )
